@@ -85,6 +85,32 @@ func signBytesEncoder(c *Ctx) *ssa.Function {
 	return found
 }
 
+// libSignBytesEncoder: CometBFT's own length-delimited encoder - the very function that
+// produces the bytes a validator signs for a vote extension.
+const libSignBytesEncoder = "github.com/cometbft/cometbft/libs/protoio.MarshalDelimited"
+
+// signBytesEncoderName: the encoder's name in call terms and, when it is module code, its body.
+func signBytesEncoderName(c *Ctx) (string, *ssa.Function) {
+	fn := c.Func("opchild/l2connect", "ValidateVoteExtensions")
+	usesLib := false
+	for g := range c.W.BuildEffects().Reach(fn) {
+		for _, b := range g.Blocks {
+			for _, in := range b.Instrs {
+				if ci, ok := in.(ssa.CallInstruction); ok {
+					if cal := ci.Common().StaticCallee(); cal != nil && funcName(cal) == libSignBytesEncoder {
+						usesLib = true
+					}
+				}
+			}
+		}
+	}
+	if usesLib {
+		return libSignBytesEncoder, nil
+	}
+	f := signBytesEncoder(c)
+	return funcName(f), f
+}
+
 func propC15(c *Ctx) {
 	c.Clauses = append(c.Clauses,
 		"UpdateOracle handler: ApplyOracleUpdate only after the executor check and with BridgeInfo.BridgeConfig.OracleEnabled",
@@ -242,7 +268,7 @@ func propC15(c *Ctx) {
 	c.Rule("C15.R3", func() {
 		fn := c.Func("opchild/l2connect", "ValidateVoteExtensions")
 		o := c.Ob("C15.R3", "ValidateVoteExtensions: power counted only for known validators' commit votes with a verified extension signature; quorum = total > 0 and sum >= 2*total/3 + 1")
-		encName := funcName(signBytesEncoder(c))
+		encName, _ := signBytesEncoderName(c)
 		po := PO{Params: []string{"ctx", "valStore", "height", "chainID", "extCommit"}, Visits: 3, NoInline: []string{encName}, Pure: []string{encName}}
 		total := "(sdkmath.Int).Int64((opchild/l2connect.ValidatorStore).TotalBondedTokens(valStore, ctx).0)"
 		nOK, nCounted := 0, 0
@@ -345,8 +371,13 @@ func propC15(c *Ctx) {
 			o3.Fail(c.W.Pos(fn.Pos()), "no iterated vote on any accepting path (floor 1)", nil)
 		}
 		// the marshal closure encodes exactly its argument
-		mf := signBytesEncoder(c)
+		_, mf := signBytesEncoderName(c)
 		o2 := c.Ob("C15.R3", "sign-bytes closure: length-delimited encoding of exactly the message it is given")
+		if mf == nil {
+			o2.Sites = 1
+			o2.Note("the encoder is CometBFT's own protoio.MarshalDelimited (the function that produces the signed bytes)")
+			return
+		}
 		for _, p := range c.Paths(mf, PO{Params: []string{"msg"}}) {
 			o2.Paths++
 			for _, i := range p.Find(func(ev *Event) bool { return ev.Kind == EvCall && strings.HasSuffix(ev.Call.Name, "Writer).WriteMsg") }) {
@@ -427,7 +458,7 @@ func propC15(c *Ctx) {
 
 	c.Rule("C15.R6", func() {
 		errorDiscipline(c, "C15.R6", "Keeper.UpdateHostValidatorSet", c.Method(childKeeper, "Keeper", "UpdateHostValidatorSet"), PO{Params: []string{"k", "ctx", "clientID", "height", "vs"}, Visits: 3})
-		errorDiscipline(c, "C15.R6", "L2OracleHandler.UpdateOracle", c.Method(childKeeper, "L2OracleHandler", "UpdateOracle"), PO{Params: []string{"k", "ctx", "height", "bz"}, Visits: 2, NoInline: []string{funcName(signBytesEncoder(c))}, Pure: []string{funcName(signBytesEncoder(c))}})
+		errorDiscipline(c, "C15.R6", "L2OracleHandler.UpdateOracle", c.Method(childKeeper, "L2OracleHandler", "UpdateOracle"), PO{Params: []string{"k", "ctx", "height", "bz"}, Visits: 2, NoInline: []string{encoderNameOf(c)}, Pure: []string{encoderNameOf(c)}})
 	})
 
 	c.Rule("C15.R5", func() {
@@ -555,4 +586,9 @@ func propC15(c *Ctx) {
 			o2.Fail(c.W.Pos(uh.Pos()), "no UpdateValidators call", nil)
 		}
 	})
+}
+
+func encoderNameOf(c *Ctx) string {
+	n, _ := signBytesEncoderName(c)
+	return n
 }
